@@ -16,8 +16,10 @@ ded.update(load("/verif/out/seed_matrix_deductive_run2.txt"))
 ded.update(load("/verif/out/seed_matrix_deductive_run3.txt"))
 ded.update(load("/verif/out/seed_matrix_deductive_run4a.txt"))  # (the latest complete run wins)
 ded.update(load("/verif/out/seed_matrix_deductive_run4b.txt"))
+ded.update(load("/verif/out/seed_matrix_deductive_run5.txt"))
 full = load("/verif/out/seed_matrix_full.txt")
 FULL4 = load("/verif/out/seed_matrix_full_run4.txt")  # full check, run only for the seeds the prover alone does not refute
+FULL4.update(load("/verif/out/seed_matrix_full_run5.txt"))
 full.update(FULL4)
 print("| seed | change (needs) | prover alone (`--no-bounded`) | full check |")
 print("|---|---|---|---|")
